@@ -455,7 +455,7 @@ def grace_for(n, evs, g):
 MULTIPOOL = [
     # PAUSE db0 only: clients of pool 1 are not held
     {"clients": 2, "pools": 2, "steps": ["admin:pause@0", "c0:reg@0", "c1:reg@1", "c0:load", "c1:load", "c0:decide", "c1:decide", "admin:store@0", "admin:notify@0", "c0:wake"]},
-    # global PAUSE = pause every pool in turn; global RESUME = resume every pool in turn (admin.rs:829-832, 892-895)
+    # global PAUSE = pause every pool in turn; global RESUME = resume every pool in turn (admin.rs `for (_, pool) in get_all_pools()`)
     {"clients": 2, "pools": 2, "steps": ["admin:pause@0", "c1:reg@1", "admin:pause@1", "c0:reg@0", "c0:load", "c1:load", "c0:decide", "c1:decide",
                                           "admin:store@0", "admin:notify@0", "c0:wake", "admin:store@1", "admin:notify@1"]},
     # RESUME of the other pool does not release
@@ -553,6 +553,97 @@ def selftest(run, binp):
     return ok
 
 
+# ----------------------------------------------------------------------------- admin console level
+_G = '[general]\nhost = "127.0.0.1"\nport = 6432\nadmin_username = "admin"\nadmin_password = "admin"\nvalidate_config = false\n'
+
+
+def _pool(name, port, size=5):
+    return ('[pools.%s]\n[pools.%s.users.0]\nusername = "u"\npassword = "pw"\npool_size = %d\n'
+            '[pools.%s.shards.0]\ndatabase = "d0"\nservers = [["127.0.0.1", %d, "primary"]]\n' % (name, name, size, name, port))
+
+
+CFG_A = _G + _pool("db1", 1) + _pool("db2", 2)
+CFG_B = _G + _pool("db1", 3) + _pool("db2", 2)        # db1's primary moved
+
+
+def _conn(i, db):
+    return {"op": "connect", "client": i, "db": db, "user": "u"}
+
+
+def _q(i):
+    return {"op": "query", "client": i}
+
+
+def _adm(sql):
+    return {"op": "admin", "sql": sql}
+
+
+# name, ops, expectations: list of (index of op, {client: status}) checked right after that op, final {client: status}
+ADMIN_SCENARIOS = [
+    ("PAUSE db,user holds that pool only; RESUME db,user releases",
+     [{"op": "config", "toml": CFG_A}, _conn(0, "db1"), _conn(1, "db2"), _adm("PAUSE db1,u"), _q(0), _q(1), _adm("RESUME db2,u"), _adm("RESUME db1,u")],
+     [(5, {0: "blocked", 1: "passed"}), (6, {0: "blocked"})], {0: "passed", 1: "passed"}),
+    ("PAUSE (all pools) holds every pool; RESUME releases every held client",
+     [{"op": "config", "toml": CFG_A}, _conn(0, "db1"), _conn(1, "db2"), _conn(2, "db1"), _adm("pause;"), _q(0), _q(1), _adm("RESUME"), _q(2)],
+     [(6, {0: "blocked", 1: "blocked"})], {0: "passed", 1: "passed", 2: "passed"}),
+    ("PAUSE of an unknown pool pauses nothing",
+     [{"op": "config", "toml": CFG_A}, _conn(0, "db1"), _adm("PAUSE nodb,u"), _adm("PAUSE db1"), _q(0)],
+     [], {0: "passed"}),
+    ("RELOAD of an unchanged configuration while paused keeps the pause; RESUME releases",
+     [{"op": "config", "toml": CFG_A}, _conn(0, "db1"), _conn(1, "db1"), _adm("PAUSE"), _q(0), _adm("RELOAD"), _q(1), _adm("RESUME")],
+     [(6, {0: "blocked", 1: "blocked"})], {0: "passed", 1: "passed"}),
+]
+# RELOAD that re-creates a paused pool (the canonical "PAUSE; repoint the server; RELOAD; RESUME")
+RELOAD_SCENARIO = ("PAUSE; RELOAD with db1's server changed; RESUME — sessions that existed before the RELOAD",
+                   [{"op": "config", "toml": CFG_A}, _conn(0, "db1"), _conn(1, "db1"), _conn(2, "db2"), _adm("PAUSE"), _q(0),
+                    {"op": "write_config", "toml": CFG_B}, _adm("RELOAD"), _adm("RESUME"), _q(1), _q(2)],
+                   [], {0: "passed", 1: "passed", 2: "passed"})
+
+
+def run_admin(binp, tag, ops):
+    path = os.path.join(vlib.TMP, "c16")
+    os.makedirs(path, exist_ok=True)
+    req = {"mode": "admin", "id": tag, "path": os.path.join(path, "admin_%s_%d.toml" % (tag, os.getpid())), "grace_ms": 300, "ops": ops}
+    return _run_chunk(binp, [req], timeout=300)[0]
+
+
+def status_of(obs):
+    return {c["client"]: c["status"] for c in obs["clients"]}
+
+
+def check_admin(run, binp):
+    """PAUSE / RESUME through the real admin command handler (pgcat::admin::handle_admin on an
+    in-memory stream), sessions modelled as client.rs does: pool resolved at connect, wait_paused()
+    on the pool the session holds, refreshed afterwards."""
+    todo = ADMIN_SCENARIOS + [RELOAD_SCENARIO]
+    with ThreadPoolExecutor(max_workers=8) as ex:
+        answers = list(ex.map(lambda t: run_admin(binp, "s%d" % t[0], t[1][1]), list(enumerate(todo))))
+    n = 0
+    for (name, ops, mids, fin), ans in zip(todo, answers):
+        n += 1
+        slim = [dict(o, toml="<%d bytes>" % len(o["toml"])) if "toml" in o else o for o in ops]
+        bad = []
+        for idx, want in mids:
+            got = status_of(ans["trace"][idx]["obs"])
+            bad += ["after op %d (%s): client %d is %s, the property says %s" % (idx, json.dumps(slim[idx]), c, got.get(c), w) for c, w in want.items() if got.get(c) != w]
+        got = status_of(ans["final"])
+        bad += ["at the end: client %d is %s, the property says %s" % (c, got.get(c), w) for c, w in fin.items() if got.get(c) != w]
+        if not bad:
+            run.cov["traces_validated_against_impl"] += 1
+            continue
+        if name == RELOAD_SCENARIO[0]:
+            stuck = sorted(c for c, w in fin.items() if got.get(c) == "blocked")
+            run.known_finding("RELOAD that re-creates a paused pool loses the PAUSE and strands its sessions: after `PAUSE; RELOAD (db1's server changed); RESUME` "
+                              "clients %s (connected before the RELOAD; one was already held, one sent its first query only after RESUME had been acknowledged) stay blocked in wait_paused() for ever — "
+                              "RESUME walks get_all_pools(), the old pool object that the sessions still hold (client.rs Client::handle: resolved at session start, wait_paused() runs on it, re-resolved only afterwards) is no longer in it; "
+                              "SHOW POOLS reports db1 paused=0 right after the RELOAD" % stuck, key="C16-RELOAD-WHILE-PAUSED")
+            run.cov.setdefault("findings", []).append({"id": "C16-RELOAD-WHILE-PAUSED", "scenario": slim, "final": ans["final"], "monitor": bad})
+        else:
+            run.violation("counterexample", "admin console: %s — %s" % (name, bad[0]), {"admin_scenario": {"name": name, "ops": ops}, "monitor": bad, "impl_trace": ans})
+    run.cov["admin_console_scenarios"] = n
+    return n
+
+
 def check(run):
     quick = run.tier == "quick"
     run.assumptions += [
@@ -560,7 +651,7 @@ def check(run):
         "Env tokio 1.29.1 Notify (sync/notify.rs:472-474, 505-515, 619-636, 918-923): notified() snapshots the notify_waiters call counter; a later notify_waiters() completes the future even if never polled — modelled as gen/snap, exercised by every hooked schedule, not proved",
         "Ordering::Relaxed accesses to `paused` are modelled as sequentially consistent atomic steps (platform assumption; the hooked harness serialises steps through a mutex, the free-running races run the real orderings on x86-64)",
         "one admin console issues PAUSE/RESUME sequentially (a PAUSE between another console's store and notify is outside the guarantee: c16_two_admin_refuted)",
-        "the client task calls wait_paused() exactly once before each checkout (client.rs:1063); the call site itself is read, not executed, by this check (wire level is a separate harness)",
+        "the client task calls wait_paused() exactly once before each checkout (client.rs Client::handle, before `pool.get`); the call site itself is read, not executed, by this check (wire level is a separate harness)",
     ]
     run.cov["trusted_base"] = ["coqc 8.16.1 kernel", "vm_compute", "harness/src/bin/pause.rs (hand-rolled executor, schedule driver, race driver)",
                                "/repo/src/verif_hooks.rs (cfg pgcat_verif only)", "props/c16.py (enumerator, monitor, comparison)",
@@ -631,6 +722,10 @@ def check(run):
         reqs = [dict(r, mode="schedule", id=i, grace_ms=G) for i, r in enumerate(MULTIPOOL)]
         nv += check_batch(run, binp, reqs, "pools", stats)
 
+    if not nv:
+        check_admin(run, binp)
+        nv = len(run.violations)
+
     # free-running races (hooks disarmed) with the stuck detector
     race = {"rounds": 0}
     if not nv:
@@ -695,6 +790,13 @@ def replay(run, path):
         out = _run_chunk(bins["pause"], [r["request"]])[0]
         print("replay (free-running, not deterministic):", json.dumps(out)[:2000])
         return 1 if out.get("violations") else 0
+    if "admin_scenario" in r:
+        ans = run_admin(bins["pause"], "replay", r["admin_scenario"]["ops"])
+        for t in ans["trace"]:
+            o = dict(t["op"]); o.pop("toml", None)
+            print("  %-60s %s" % (json.dumps(o), status_of(t["obs"])))
+        print("  final", status_of(ans["final"]), ans["final"]["pools"])
+        return 1 if "blocked" in status_of(ans["final"]).values() else 0
     req = r.get("schedule")
     if not isinstance(req, dict):
         print("no schedule in replay file"); return 2
